@@ -94,12 +94,16 @@ structure PIneq where
 
 def emptyP : PState := ⟨emptyState, fun _ => 0, fun _ => none, fun _ => none⟩
 
+/-- the constraint as the rational solver sees it (standard part of the bound) -/
+def projIneq (q : PIneq) : Ineq := ⟨q.kind, q.jars, q.bound.x⟩
+/-- the atom of the rational solver with the δ-rational bound put back -/
+def liftAtom (q : PIneq) : Atom → PAtom
+  | .geq x _ => .geq x q.bound
+  | .leq x _ => .leq x q.bound
+
 /-- `add_ineq` (the tableau part is that of the rational solver) -/
 def addIneqP (s : PState) (q : PIneq) : PState × Option PAtom :=
-  let (sx', a) := addIneq s.sx ⟨q.kind, q.jars, q.bound.x⟩
-  ({ s with sx := sx' }, a.map fun
-    | .geq x _ => PAtom.geq x q.bound
-    | .leq x _ => PAtom.leq x q.bound)
+  ({ s with sx := (addIneq s.sx (projIneq q)).1 }, (addIneq s.sx (projIneq q)).2.map (liftAtom q))
 
 def addIneqsP : PState → List PIneq → PState × List PAtom
   | s, [] => (s, [])
